@@ -82,6 +82,12 @@ def run(ctx):
                     a, b = F.dense(Z), F.dense(T)
                     err = np.linalg.norm(a - b) / np.linalg.norm(b)
                     ctx.check(err <= 1e-5, 'svd_incomplete:recovery', what + ': relative error %.2e although the target is recoverable' % err, case=row)
+                    # the accuracy is absolute and may be anything down to 0: tiny data with e = 0 or e far below the data
+                    if rep == 0 and sp == 0:
+                        for sc_, e0_ in ((2.0 ** -60, 0.), (2.0 ** -60, 1e-30), (2.0 ** -27, 0.), (1., 0.)):
+                            Z0 = teneva.svd_incomplete(I, y * sc_, idx, idxm, e0_, cap)
+                            ok0 = F.is_wellformed(Z0, n) and np.linalg.norm(F.dense(Z0) / sc_ - b) <= 1e-5 * np.linalg.norm(b)
+                            ctx.check(ok0, 'svd_incomplete:recovery', what + ': data times %.3g with e = %g is not recovered' % (sc_, e0_), case=row)
                     # the same sample arrays used again (a sweep over caps): the data must be intact and the answer the same
                     y_keep, I_keep = y.copy(), I.copy()
                     Z2 = teneva.svd_incomplete(I, y, idx, idxm, e_abs, cap + 1)
